@@ -5,7 +5,7 @@ import runner, coreutil, gen_core
 from coreutil import Scenario, reads, toks
 from refcodec import decode_client_frames, ClientFrameError
 
-TRUSTED = ['correspondence: harness/world.py', 'harness/refcodec.py decode_client_frames: independent RFC 6455 section 5.2 decoder (requires MASK=1, minimal length, control <= 125, FIN on control)']
+TRUSTED = ['correspondence: harness/world.py', 'frame-level correspondence: the real Frame.build / mask_payload / build_close_payload and the model driver ops `frame build|mask|closepayload`; the model\'s specification decoder `Spec.decodeClientFrame` (`frame decode`) against refcodec', 'harness/refcodec.py decode_client_frames: independent RFC 6455 section 5.2 decoder (requires MASK=1, minimal length, control <= 125, FIN on control)']
 ASSUMPTIONS = ['send_json is covered through send_text (json.dumps is not modelled)', 'caller data untouched: only immutable bytes/str are accepted by the API; checked by the harness, not a theorem',
                'mask_payload slice/translate mechanics checked exhaustively on the real code (4 lanes x 256 keys x 256 data bytes) rather than proved']
 
@@ -39,7 +39,9 @@ def calls_for(rng, tier):
     for act, exc in ((('send_text', ('b', b'x'), True), 'TypeError'), (('send_text', ('o',), True), 'TypeError'),
                      (('send_binary', ('s', [120]), True), 'TypeError'), (('send_binary', ('o', 'bytearray'), True), 'TypeError'),
                      (('send_ping', ('s', [120])), 'TypeError'), (('send_pong', ('o',)), 'TypeError'), (('send_ping', ('o', 'bytearray')), 'TypeError'),
-                     (('close', 65536, ('b', b'x')), 'ValueError'), (('close', 70000, ('b', b'')), 'ValueError'), (('close', 1 << 40, ('s', [120])), 'ValueError')):
+                     (('close', 65536, ('b', b'x')), 'ValueError'), (('close', 70000, ('b', b'')), 'ValueError'), (('close', 1 << 40, ('s', [120])), 'ValueError'),
+                     # the code range is tested before the reason is touched; a reason without .encode is AttributeError (TypeError class)
+                     (('close', 70000, ('o',)), 'ValueError'), (('close', 1000, ('o',)), 'TypeError'), (('close', None, ('o', 'bytearray')), 'TypeError')):
         out.append((act, ('reject', exc)))
     return out
 
@@ -70,11 +72,204 @@ def real_mask_table(_):
     return bad
 
 
+# ---------------------------------------------------------------------------------------------
+# frame level: the real Frame.build / mask_payload / build_close_payload against the model's
+# `frame ...` driver ops, and the model's specification decoder against refcodec
+
+FRAME_LENS_QUICK = [0, 1, 2, 3, 4, 5, 7, 124, 125, 126, 127, 128, 65535, 65536]
+FRAME_LENS_THOROUGH = list(range(0, 131)) + list(range(65530, 65542)) + [70000]
+
+
+def hx(b):
+    return bytes(b).hex() or '-'
+
+
+def frame_build_cases(rng, tier):
+    """(op, bits, payload, key)"""
+    out = []
+    lens = FRAME_LENS_THOROUGH if tier == 'thorough' else FRAME_LENS_QUICK
+    for n in lens:
+        for op in (0, 1, 2, 8, 9, 10):
+            out.append((op, '1000', gen_core.rand_bytes(rng, n), gen_core.rand_bytes(rng, 4)))
+        out.append((rng.choice([3, 7, 11, 15]), '1000', gen_core.rand_bytes(rng, n), gen_core.rand_bytes(rng, 4)))
+    # every combination of FIN/RSV bits
+    for bits in range(16):
+        b = format(bits, '04b')
+        for n in (0, 5, 126):
+            out.append((rng.choice([0, 1, 2, 8, 9, 10]), b, gen_core.rand_bytes(rng, n), gen_core.rand_bytes(rng, 4)))
+    # every key byte value in every lane, payload covering all four lanes twice, all-ones/zero data
+    for lane in range(4):
+        for k in range(256):
+            key = bytearray(gen_core.rand_bytes(rng, 4)); key[lane] = k
+            out.append((2, '1000', gen_core.rand_bytes(rng, 9) if k % 2 else bytes([0, 255, 0x55, 0xaa, k, k ^ 255, 1, 2, 3]), bytes(key)))
+    # every data byte value
+    out.append((2, '1000', bytes(range(256)), b'\x00\x00\x00\x00'))
+    out.append((2, '1000', bytes(range(256)), b'\xff\x0f\xf0\xa5'))
+    return out
+
+
+def real_frame_build(case):
+    from lomond.frame import Frame
+    op, bits, payload, key = case[0], case[1], bytes.fromhex(case[2]), bytes.fromhex(case[3])
+    keep_p, keep_k = bytes(payload), bytes(key)
+    fin, r1, r2, r3 = (int(c) for c in bits)
+    try:
+        out = Frame.build(op, payload, fin=fin, rsv1=r1, rsv2=r2, rsv3=r3, mask=True, masking_key=key)
+    except Exception as e:  # noqa
+        return 'EXC:' + type(e).__name__
+    if payload != keep_p or key != keep_k:
+        return 'CALLER-DATA-MODIFIED'
+    # session.send passes a private bytearray copy: the same bytes must come out
+    out2 = Frame.build(op, bytearray(payload), fin=fin, rsv1=r1, rsv2=r2, rsv3=r3, mask=True, masking_key=key)
+    if out2 != out:
+        return 'BYTEARRAY-DIFFERS'
+    return out.hex()
+
+
+def real_mask(case):
+    from lomond.mask import mask_payload
+    key, data = bytes.fromhex(case[0]), bytearray.fromhex(case[1])
+    mask_payload(key, data)
+    return bytes(data).hex()
+
+
+def real_close_payload(case):
+    from lomond.frame import Frame
+    code, reason = case
+    try:
+        return Frame.build_close_payload(code, bytes.fromhex(reason)).hex()
+    except Exception as e:  # noqa
+        return 'EXC:' + type(e).__name__
+
+
+def ref_decode_line(wire):
+    """what refcodec says about a byte string, in the model driver's output format; the control-frame
+       rules of section 5.5 (which the model states separately, `control_bound`) are reported apart"""
+    try:
+        fs = decode_client_frames(wire)
+    except ClientFrameError as e:
+        return ('control' if 'invalid control frame' in str(e) else 'invalid'), None
+    return 'ok', 'ok ' + ' '.join('%d%d%d%d:%d:%s:%s' % (f['fin'], f['rsv1'], f['rsv2'], f['rsv3'], f['opcode'], f['key'].hex(), f['payload'].hex()) for f in fs)
+
+
+def mutate_frame(rng, wire):
+    """header-level malformations of one valid client frame"""
+    w = bytearray(wire)
+    kind = rng.choice(['unmask', 'trunc', 'nonmin16', 'nonmin64', 'len+', 'len-', 'top64', 'append', 'flip0'])
+    if kind == 'unmask':
+        w[1] &= 0x7f
+    elif kind == 'trunc':
+        w = w[:rng.randrange(0, len(w))] if len(w) else w
+    elif kind == 'nonmin16':
+        ln = w[1] & 0x7f
+        if ln < 126:
+            w = w[:1] + bytes([0x80 | 126]) + struct.pack('!H', ln) + w[2:]
+    elif kind == 'nonmin64':
+        ln = w[1] & 0x7f
+        if ln < 126:
+            w = w[:1] + bytes([0x80 | 127]) + struct.pack('!Q', ln) + w[2:]
+        elif ln == 126:
+            w = w[:1] + bytes([0x80 | 127]) + b'\x00' * 6 + w[2:]
+    elif kind == 'len+':
+        if (w[1] & 0x7f) < 125:
+            w[1] += 1
+    elif kind == 'len-':
+        if 0 < (w[1] & 0x7f) < 126:
+            w[1] -= 1
+    elif kind == 'top64':
+        w = w[:1] + bytes([0xff]) + b'\x80' + b'\x00' * 7 + w[2:]
+    elif kind == 'append':
+        w = w + w
+    else:
+        w[0] ^= rng.choice([0x80, 0x40, 0x20, 0x10, 0x0f])
+    return kind, bytes(w)
+
+
+def explore_frames(res, tier, rng, model_ok):
+    cases = frame_build_cases(rng, tier)
+    items = [(op, bits, bytes(p).hex(), bytes(k).hex()) for op, bits, p, k in cases]
+    reals = runner.parallel_map('props.c03', 'real_frame_build', items)
+    lines = ['frame build %d %s %s %s' % (op, bits, hx(p), hx(k)) for op, bits, p, k in cases]
+    models = runner.model_run(lines) if model_ok else [None] * len(lines)
+    wires = []
+    for (op, bits, p, k), line, real, model in zip(cases, lines, reals, models):
+        res.case(('fb', op, bits, len(p), bytes(k)), nontrivial=True)
+        res.count('frame-build'); res.count('frame-len-%s' % ('7' if len(p) < 126 else '16' if len(p) < 65536 else '64'))
+        res.traces_validated += 1
+        if isinstance(real, dict):
+            res.crashes.append(real); continue
+        if model is not None and real != model:
+            res.diffs.append(dict(input=line[:300], real=real[:300], model=model[:300]))
+        if not all(c in '0123456789abcdef' for c in real):
+            res.failures.append(dict(cls='frame-build', what='Frame.build: %s' % real, input=line[:300], observed=real, expected='a frame'))
+            continue
+        wire = bytes.fromhex(real)
+        wires.append(wire)
+        # independent oracle on the real bytes
+        st, txt = ref_decode_line(wire)
+        want = 'ok %s:%d:%s:%s' % (bits, op, bytes(k).hex(), bytes(p).hex())
+        is_bad_ctrl = op >= 8 and (len(p) > 125 or bits[0] == '0')      # the low-level builder is not where section 5.5 is enforced
+        if (st == 'control') != is_bad_ctrl or (st == 'ok' and txt != want) or st == 'invalid':
+            res.failures.append(dict(cls='frame-build', what='Frame.build output does not decode to its arguments', input=line[:300],
+                                     observed=(st, (txt or '')[:200]), expected=want[:200]))
+    res.exhaustive['frame_build_key_byte_x_lane'] = 4 * 256
+    res.exhaustive['frame_build_flag_bits'] = 16
+    # the model's specification decoder against the reference decoder: valid frames, sequences, malformations
+    dec = [w for w in wires if len(w) < 400]
+    rng.shuffle(dec)
+    dec = dec[:400 if tier == 'quick' else 3000]
+    inputs = []
+    for w in dec:
+        inputs.append(('valid', w))
+        inputs.append(mutate_frame(rng, w))
+    for _ in range(50 if tier == 'quick' else 500):
+        inputs.append(('seq', b''.join(rng.choice(dec) for _ in range(rng.randint(2, 4)))))
+    for w in [x for x in wires if len(x) >= 65536][:3]:
+        inputs.append(('valid-long', w)); inputs.append(('trunc-long', w[:-1]))
+    dlines = ['frame decode %s' % hx(w) for _, w in inputs]
+    dmodels = runner.model_run(dlines) if model_ok else [None] * len(dlines)
+    for (kind, w), line, model in zip(inputs, dlines, dmodels):
+        res.case(('fd', w[:64], len(w)), nontrivial=True)
+        res.count('frame-decode-' + kind)
+        res.traces_validated += 1
+        st, txt = ref_decode_line(w)
+        if model is None:
+            continue
+        if st == 'control':
+            continue          # section 5.5 violation: outside `Spec.decodeClientFrame` (section 5.2)
+        if (st == 'ok' and model.rstrip() != txt.rstrip()) or (st == 'invalid' and model != 'invalid'):
+            res.diffs.append(dict(input=line[:300], real='refcodec: ' + (txt or 'invalid')[:300], model=model[:300]))
+    # mask_payload and build_close_payload against the model
+    mcases = [(gen_core.rand_bytes(rng, 4).hex(), gen_core.rand_bytes(rng, n).hex()) for n in list(range(0, 13)) + [255, 256, 1000]]
+    mreal = [real_mask(c) for c in mcases]
+    mmodel = runner.model_run(['frame mask %s %s' % (k, d or '-') for k, d in mcases]) if model_ok else [None] * len(mcases)
+    for c, r, m in zip(mcases, mreal, mmodel):
+        res.case(('mask', c), nontrivial=True); res.count('mask'); res.traces_validated += 1
+        if m is not None and (r or '') != m:
+            res.diffs.append(dict(input='frame mask %s %s' % c, real=r, model=m))
+        want = bytes(b ^ bytes.fromhex(c[0])[i % 4] for i, b in enumerate(bytes.fromhex(c[1]))).hex()
+        if r != want:
+            res.failures.append(dict(cls='mask-table', what='mask_payload is not XOR with key[i % 4]', input=list(c), observed=r[:100], expected=want[:100]))
+    ccases = [(code, gen_core.rand_bytes(rng, n).hex()) for code in (None, 0, 1000, 1001, 4999, 65535) for n in (0, 1, 123, 124, 200)]
+    creal = [real_close_payload(c) for c in ccases]
+    cmodel = runner.model_run(['frame closepayload %s %s' % ('N' if c is None else c, r or '-') for c, r in ccases]) if model_ok else [None] * len(ccases)
+    for c, r, m in zip(ccases, creal, cmodel):
+        res.case(('closepayload', c), nontrivial=True); res.count('closepayload'); res.traces_validated += 1
+        if m is not None and r != m:
+            res.diffs.append(dict(input='frame closepayload %s %s' % c, real=r, model=m))
+        want = b'' if c[0] is None else struct.pack('!H', c[0]) + bytes.fromhex(c[1])
+        if r != want.hex():
+            res.failures.append(dict(cls='close-args', what='build_close_payload is not code_be16 ++ reason', input=list(c), observed=r[:100], expected=want.hex()[:100]))
+
+
 def explore(res, tier, seed, model_ok=True):
     rng = random.Random(seed)
     res.rule = ('API calls made by the application at the Ready event on the real WebSocket: send_binary/send_text with every length 0..130 and around 65536, ping/pong/close lengths 0..130, '
                 'texts over all planes, lone surrogates, wrong argument types, out-of-range close codes; with and without negotiated compression and compress flag; every written frame decoded by the independent decoder; '
-                'exhaustive: mask_payload on 4 lanes x 256 key bytes x 256 data bytes; non-trivial = every call; distinct by call')
+                'exhaustive: mask_payload on 4 lanes x 256 key bytes x 256 data bytes; '
+                'frame level: the real Frame.build (all 16 FIN/RSV combinations, lengths on both sides of 126 and 65536, every key byte value in every lane) against the model and against the independent decoder, '
+                'the model\'s specification decoder against the independent decoder on valid frames, frame sequences and header malformations (unmasked, truncated, non-minimal lengths, 2^63); '
+                'non-trivial = every call; distinct by call')
     bad = real_mask_table(None)
     res.exhaustive['mask_lane_key_byte'] = 4 * 256 * 256
     res.evaluations += 4 * 256
@@ -150,8 +345,20 @@ def explore(res, tier, seed, model_ok=True):
         if f['payload'] != exp[2]:
             fail('unmasked payload differs from the caller\'s data'); continue
     coreutil.check_corr(res, pairs)
+    explore_frames(res, tier, rng, model_ok)
     res.samples += [pairs[0][1][-200:], pairs[len(pairs) // 2][1][-200:]]
 
 
 def replay(rp):
+    inp = rp.get('input')
+    if isinstance(inp, str) and inp.startswith('frame build '):
+        _, _, op, bits, p, k = inp.split(' ')
+        out = real_frame_build((int(op), bits, '' if p == '-' else p, '' if k == '-' else k))
+        print('Frame.build(%s, %s, bits=%s, masking_key=%s) -> %s' % (op, p, bits, k, out[:400]))
+        if all(c in '0123456789abcdef' for c in out):
+            print('independent decoder: %s' % (ref_decode_line(bytes.fromhex(out)),))
+        return 0
+    if isinstance(inp, list) and len(inp) == 2 and rp.get('cls') == 'mask-table':
+        print('mask_payload(%s, %s) -> %s' % (inp[0], inp[1], real_mask(inp)))
+        return 0
     return coreutil.replay_core(rp)
